@@ -645,7 +645,7 @@ def _apply_hints(body, hints, fname):
                     # we only treat `;` as a separator, plus `}` when followed by `let`/ident at line start.
                     if is_brace and i + 1 < len(code):
                         nt = toks[code[i + 1]]
-                        if nt.kind == "ident" and nt.s in ("let", "if", "match", "while", "for", "loop", "return") or nt.kind == "ident":
+                        if nt.kind == "ident" and nt.s != "else":
                             # statement-like block ended (if/match/while as statement)
                             # only when the block started a statement: heuristic — previous separator is at `last`
                             stmt_text = body[last:toks[e].end].lstrip()
